@@ -86,8 +86,12 @@ func TestVerifC02Replay(t *testing.T) { c02.replay(t) }
 var c05Bln = &propTest{
 	prop: "C05", unit: "balloons-histories",
 	gen: func(t *rapid.T) *hcCase {
-		return genBalloonsCase(t, genOpts{Policy: polBalloons, MinOps: 8, MaxOps: 40, Reconfig: true, FillPools: true, MemPressure: true,
+		c := genBalloonsCase(t, genOpts{Policy: polBalloons, MinOps: 8, MaxOps: 40, Reconfig: true, FillPools: true, MemPressure: true,
 			Topo: vfkit.TopoOpts{MaxCPUs: 32, SmallMem: true, MaxMemNodes: 8}})
+		if rapid.IntRange(0, 3).Draw(t, "discardedBalloonMotif") == 0 {
+			blnDiscardedBalloonMotif(t, c)
+		}
+		return c
 	},
 	invs:    []invFn{checkRuntimeView},
 	observe: c05Observe,
